@@ -80,6 +80,16 @@ func WorkerMain(args []string) int {
 		}
 	}
 	total := s.N()
+	// a worker process is recycled after a number of cases (native resources of the code
+	// under test - wasmtime code mappings - are only released by finalizers): it reports
+	// "yield" and the parent starts a fresh process for the rest of the shard
+	maxCases := 400
+	if v := os.Getenv("VERIF_WORKER_CASES"); v != "" {
+		if n, err := strconv.Atoi(v); err == nil && n > 0 {
+			maxCases = n
+		}
+	}
+	ran := 0
 	for i := 0; i < total; i++ {
 		if only >= 0 && i != only {
 			continue
@@ -87,8 +97,14 @@ func WorkerMain(args []string) int {
 		if only < 0 && (i%n != k || i <= from) {
 			continue
 		}
+		if only < 0 && ran >= maxCases {
+			emit(wireMsg{T: "yield"})
+			return 0
+		}
 		emit(wireMsg{T: "case", I: i})
 		s.Run(c, i)
+		ran++
+		runtime.GC()
 	}
 	emit(wireMsg{T: "done"})
 	return 0
@@ -113,6 +129,12 @@ func (c *Ctx) RunSharded(name string) {
 		}
 	}
 	runWorkerFromCase := func(k, n, only, from int) (lastCase int, done bool, tail string) {
+		yielded := false
+		defer func() {
+			if yielded && !done {
+				tail = "YIELD"
+			}
+		}()
 		args := []string{"worker", "shard", c.Prop, name, strconv.Itoa(k), strconv.Itoa(n), strconv.Itoa(only), strconv.Itoa(from)}
 		cmd := exec.Command(self, args...)
 		cmd.Env = append(os.Environ(), "VERIF_TIER_INTERNAL="+c.Tier, fmt.Sprintf("VERIF_DEADLINE_UNIX=%d", c.Deadline.Unix()))
@@ -176,6 +198,8 @@ func (c *Ctx) RunSharded(name string) {
 				c.Cap(m.What)
 			case "done":
 				done = true
+			case "yield":
+				yielded = true
 			}
 		}
 		_ = cmd.Wait()
@@ -234,6 +258,11 @@ func (c *Ctx) RunSharded(name string) {
 				last, done, tail := runWorkerFromCase(k, nw, -1, from)
 				if done {
 					return
+				}
+				if tail == "YIELD" && last > from {
+					from = last
+					deaths--
+					continue
 				}
 				if last < 0 || last <= from {
 					c.HarnessError(fmt.Sprintf("%s: worker %d died before running a case: %s", name, k, firstPanicLine(tail)))
